@@ -132,6 +132,11 @@ goal		:  initlex sect1 sect1end sect2 initforrule
 			 */
 			default_rule = num_rules;
 
+			/* The default rule matches any character, newline
+			 * included, so yylineno has to count what it consumes.
+			 */
+			rule_has_nl[num_rules] = true;
+
 			finish_rule( def_rule, false, 0, 0, 0);
 
 			for ( i = 1; i <= lastsc; ++i )
